@@ -356,6 +356,18 @@ func (vc *VC) loadGlobal(g *ssa.Global, st *State) string {
 			if kind == "err" || kind == "nonnil" {
 				vc.d.axioms = append(vc.d.axioms, fmt.Sprintf("(assert (> %s 0))", cn))
 			}
+			if kind == "structconst" {
+				var fs []string
+				stT := T.Underlying().(*types.Struct)
+				for i, c := range vc.w.globalStruct[g] {
+					if c == nil {
+						fs = append(fs, vc.d.zero(stT.Field(i).Type()))
+					} else {
+						fs = append(fs, vc.constTerm(c))
+					}
+				}
+				vc.d.axioms = append(vc.d.axioms, fmt.Sprintf("(assert (= %s %s))", cn, vc.d.mkStruct(T, fs)))
+			}
 			if strings.HasPrefix(kind, "slice:") {
 				n := strings.TrimPrefix(kind, "slice:")
 				vc.d.axioms = append(vc.d.axioms, fmt.Sprintf("(assert (and (= (s-len %s) %s) (= (s-cap %s) %s) (= (s-off %s) 0) (> (s-arr %s) 0)))", cn, n, cn, n, cn, cn))
